@@ -302,7 +302,7 @@ type runner struct {
 	c          *core.Ctx
 	n, nontriv int64
 	seen       sync.Map
-	cur        [16]atomic.Pointer[stamp]
+	inflight   sync.Map // *stamp -> true: scenarios being executed right now
 }
 type stamp struct {
 	t time.Time
@@ -325,10 +325,8 @@ func (r *runner) runGen(space string, o tlc.Opts) {
 		ch <- append([]byte(nil), p...)
 	}
 	done := make(chan struct{})
-	var wid int32
 	go func() {
 		core.Parallel(14, ch, func(p []byte) {
-			me := int(atomic.AddInt32(&wid, 1)) % 16
 			var l Line
 			if err := json.Unmarshal(p, &l); err != nil {
 				c.Broken("bad scenario line: " + err.Error())
@@ -350,9 +348,10 @@ func (r *runner) runGen(space string, o tlc.Opts) {
 			}
 			for _, e := range embsFor(int64(hash(l.P.SVG()+"|"+l.Q.SVG())), c.Thorough()) {
 				s := &Scenario{Kind: "bool", S: hdr.S, Samples: hdr.Samples, P: l.P, Q: l.Q, Emb: e, Exp: exp, F: l.F, Space: space}
-				r.cur[me].Store(&stamp{time.Now(), s})
+				st := &stamp{time.Now(), s}
+				r.inflight.Store(st, true)
 				ms := exec(s, false)
-				r.cur[me].Store(nil)
+				r.inflight.Delete(st)
 				c.Count(5, 0, 1)
 				if k%100000 == 7 && e.Name == "id" {
 					c.Sample(map[string]any{"p": l.P.SVG(), "q": l.Q.SVG(), "expected_and": l.And, "expected_or": l.Or})
@@ -567,13 +566,10 @@ func (d Driver) Run(c *core.Ctx) error {
 				return
 			case <-time.After(5 * time.Second):
 			}
-			for i := range r.cur {
-				st := r.cur[i].Load()
-				if st == nil {
-					continue
-				}
+			r.inflight.Range(func(k, _ any) bool {
+				st := k.(*stamp)
 				if time.Since(st.t) > 20*time.Minute {
-					c.Broken("worker stuck for 20 minutes on a scenario that terminates under replay")
+					c.Broken("worker stuck for 20 minutes on a scenario that terminates under replay: P=" + st.s.psvg() + " Q=" + st.s.qsvg() + " emb=" + st.s.Emb.Name)
 					os.Exit(c.Finish())
 				}
 				if time.Since(st.t) > 2*time.Minute && !handled[st] {
@@ -590,7 +586,8 @@ func (d Driver) Run(c *core.Ctx) error {
 						os.Exit(c.Finish())
 					}
 				}
-			}
+				return true
+			})
 		}
 	}()
 	defer close(stop)
